@@ -436,7 +436,11 @@ class SolverActor:
             return None
         if n < 2:
             return None
-        if q == "find":
+        if q == "refill":
+            # the public, idempotent rebuild of the characteristics queue from the items' current characteristics
+            sd.RefillQueue()
+            r = None
+        elif q == "find":
             it = sd.FindDataItemByOneDimensionalPoint(float(op["x"]))
             r = float(it.GetX()) if it is not None else None
         else:
